@@ -90,6 +90,13 @@ def run(ctx):
                     if any(not (-1e-12 <= x < 0.1 + 1e-12) for x in noise):
                         ctx.violation('restart', 'realization %s does not start from the file values plus noise in [0, 0.1)' % t[1], {'case': e2e[c - 800000], 'start_minus_file': noise})
                         break
+                    # FRESH noise per entry: no two entries of one start carry the same draw (two independent uniform draws agree to 1e-14 with
+                    # probability ~1e-13; the recomputed differences of one shared draw agree to a few ulp)
+                    shared = [(p, q) for p in range(len(noise)) for q in range(p + 1, len(noise)) if noise[p] > 1e-9 and abs(noise[p] - noise[q]) < 1e-14]
+                    if shared:
+                        ctx.violation('restart', 'realization %s: entries %d and %d of the start carry the SAME noise %.15g (not a fresh draw per entry)' % (t[1], shared[0][0], shared[0][1], noise[shared[0][0]]),
+                                      {'case': e2e[c - 800000], 'start_minus_file': noise})
+                        break
                     if w in seen:
                         ctx.violation('restart', 'two realizations start from the same affinity (no fresh noise)', {'case': e2e[c - 800000]})
                         break
